@@ -128,6 +128,9 @@ def check(pm: ProgramModel, ctx: Ctx) -> None:
     if ctx.tier == "thorough":
         cd.thorough_pairs(mb, BINARY_LOGICAL, "VOC")
         cd.thorough_kind_pairs(mb, [D(1, 1, 1), D(0, 1, 1), D(1, 1, 2), D(1, 2, 2), D(0, 1, 2), D(2, 3, 3), D(0, 2, 2), D(1, -1, 2)])
+    from ..codec import stress_trees
+    cd.report("VOC", "stress-shapes", cd.roundtrip(ctc_model(mb, stress_trees(mb))),
+              "constraint shapes that stress normal forms", ("constraint", "constraint-count"))
     cd.finish_unowned()
     ctx.analysed["C05:compositions"] = cd.n
     ctx.floor(rule, "obligations", len(ctx.obligations), 40)
